@@ -650,6 +650,43 @@ def C11_function_body_opset():
     return True, f"function bodies are lowered at the declared opset ({n_exported} exports)"
 
 
+def C09_function_body_constants_follow_precision():
+    """enable_double_precision=True from a process whose x64 flag is off: python constants inside an
+    @onnx_function body must be true doubles (no float32 round trip); with False: no double tensor anywhere."""
+    import jax
+    from witnesses import _fnmods
+    import onnx
+    from onnx import numpy_helper
+    start = bool(jax.config.jax_enable_x64)
+    try:
+        jax.config.update("jax_enable_x64", False)
+        m = _export(lambda x: _fnmods.scale_by_tenth(x), [jax.ShapeDtypeStruct((3,), np.float64)], enable_double_precision=True)
+        x = np.asarray([1.0, 2.0, 3.0], dtype=np.float64)
+        got = _run(m, [x])[0][0]
+        want = x * 0.1 + 0.3
+        if got.dtype != np.float64 or float(np.max(np.abs(got - want))) > 1e-13:
+            return False, f"double-precision export: model gives {got.tolist()} ({got.dtype}), float64 evaluation gives {want.tolist()} (max abs err {float(np.max(np.abs(got.astype(np.float64) - want)))})"
+        jax.config.update("jax_enable_x64", True)
+        m2 = _export(lambda x: _fnmods.scale_by_tenth(x), [jax.ShapeDtypeStruct((3,), np.float32)], enable_double_precision=False)
+
+        def doubles(model):
+            out = []
+            graphs = [("main", model.graph.node)] + [(f.name, f.node) for f in model.functions]
+            for where, nodes in graphs:
+                for n in nodes:
+                    for a in n.attribute:
+                        if a.t.data_type == onnx.TensorProto.DOUBLE:
+                            out.append(f"{where}:{n.op_type}")
+            out += [f"initializer {i.name}" for i in model.graph.initializer if i.data_type == onnx.TensorProto.DOUBLE]
+            return out
+        d = doubles(m2)
+        if d:
+            return False, f"single-precision export from an x64 process contains double tensors: {d[:3]}"
+    finally:
+        jax.config.update("jax_enable_x64", start)
+    return True, "function-body constants follow the requested precision in both directions"
+
+
 def C05_output_order_family():
     """results (a4d, b4d, c1d, d4d) under every ordered subset of outputs_as_nchw over the 4-D leaves:
     output k must be leaf k (NCHW-transposed iff flagged)."""
@@ -936,6 +973,7 @@ ALL = {
     "C05_output_order_family": C05_output_order_family,
     "C04_dimexpr_family": C04_dimexpr_family,
     "C02_table_family": C02_table_family,
+    "C09_function_body_constants_follow_precision": C09_function_body_constants_follow_precision,
     "D10_cumprod_lax": D10_cumprod_lax, "D10_cumprod_jnp": D10_cumprod_jnp, "D10_bitcast": D10_bitcast,
     "C11_ops_within_opset": C11_ops_within_opset, "C11_function_body_opset": C11_function_body_opset,
     "C16_reverse_scan_is_loud": C16_reverse_scan_is_loud, "C16_unbound_output_is_loud": C16_unbound_output_is_loud,
